@@ -150,7 +150,7 @@ def _ctor(cls):
         o = fresh('new_' + cls, Ref)
         st.assume(o != NONE)
         st.assume(ex.ctx.shapes.exact_class_term(o, cls))
-        st.assume(z3.Not(z3.Select(ex.ctx.alive0, o)))
+        st.allocate(o)
         name = ex.term(b['name'], st, STR)
         type_ = ex.num(b['type_'], st)[0]
         class_ = ex.num(b['class_'], st)[0]
